@@ -681,6 +681,23 @@ func runC19(r *Run) {
 		u.codec = c
 	}
 
+	// (0) input that ends inside the value: an error from every time codec, the destination untouched
+	for _, tc := range []struct {
+		name string
+		c    avro.Codec
+	}{{"date", dateCodec}, {"long", units[0].codec}, {"micros", units[3].codec}, {"millis", units[4].codec}, {"string", avrotime.StringCodec{}}} {
+		for _, in := range [][]byte{{}, {0x80}, {0x80, 0x80, 0x80}, {0xff, 0xff, 0xff, 0xff, 0xff, 0xff, 0xff, 0xff, 0xff}, {0x28, '2', '0', '2', '1'}, {0x06, 'a'}} {
+			if tc.name != "string" && len(in) > 0 && in[0] < 0x80 {
+				continue // a complete varint for the integer codecs
+			}
+			got := codecReadTime(tc.c, in)
+			r.Count("truncated/" + tc.name)
+			if got.Class != "err" {
+				r.Fail(-1, "other-truncated-input", fmt.Sprintf("%s codec on input %x that ends inside the value: %+v", tc.name, in, got), map[string]any{"kind": "truncated", "codec": tc.name, "input": hexs(in)})
+			}
+		}
+	}
+
 	// (1) date read: every interesting int32 day count; int64 values outside int32 must be rejected
 	seenDay := map[int64]bool{}
 	dateRead := func(n int64, bucket string) {
